@@ -132,7 +132,8 @@ def run(ctx):
     for si in range(ctx.budget(14, 60)):
         if len(reqs) >= 15000:
             flush()     # keep memory bounded in long runs
-        info = fam[si % len(fam)]
+        # the statement quantifies over every schema: after one pass over the family, half of the schemas are random ones
+        info = fam[si % len(fam)] if si < len(fam) or rng.random() < 0.5 else schemas.random_schema(rng)
         schema = info.schema
         ctx.driver.add_schema(info)
         docs = [x for x in (ctx.guard(lambda: gen.gen_doc(rng, schema, budget=rng.choice([6, 12, 25])), "gen_doc")
@@ -146,7 +147,7 @@ def run(ctx):
     return ctx.finish(
         rule="a case is (document, first step, second step) with the second applying to the result of the first: typing/backspacing "
              "style adjacent replace steps, replace steps with open slices, overlapping/touching mark steps, random pairs; "
-             "bundled-family schemas; non-trivial = the real merge returned a step")
+             "bundled-family and random schemas; non-trivial = the real merge returned a step")
 
 
 if __name__ == "__main__":
